@@ -652,8 +652,10 @@ class QWorld:
         remaining = vc.real(name + ".remaining", 0)
         vc.assume(remaining <= self.timeout)
         c._handle.when = self.loop.now + remaining
-        # what was queued before: an arbitrary number of entries, then `data`
-        c.data = vc.sym_list(name + ".queued_before")
+        # what was queued before: an arbitrary number of entries, then `data` (a replay on the
+        # real code starts from a collector that was filled through its own append only)
+        if not vc.native:
+            c.data = vc.sym_list(name + ".queued_before")
         for d in data:
             c.append(d)
         if done:
